@@ -190,6 +190,11 @@ class Lowering:
             args = [self.resolve(a) for a in t.args]
             if name == '__gnu_cxx::__normal_iterator' and len(args) == 2:
                 return T('tmpl', 'iter', args=[args[1]])
+            if name == 'std::__detail::_Node_iterator_base' and args and args[0].kind == 'tmpl' and args[0].name == 'std::pair':
+                return T('tmpl', 'iter', args=[T('tmpl', 'std::unordered_map', args=list(args[0].args))])
+            if name in ('std::__detail::_Node_iterator', 'std::__detail::_Node_const_iterator', 'std::_Rb_tree_iterator',
+                        'std::_Rb_tree_const_iterator') and args and args[0].kind == 'tmpl' and args[0].name == 'std::pair':
+                return T('tmpl', 'iter', args=[T('tmpl', 'std::unordered_map', args=list(args[0].args))])
             if name in ('std::_Deque_iterator',) and len(args) == 3:
                 return T('tmpl', 'iter', args=[T('tmpl', 'std::deque', args=[args[0]])])
             if name in ('std::vector', 'std::deque', 'std::list') and len(args) >= 1:
@@ -212,6 +217,8 @@ class Lowering:
             return T('tmpl', name, args=args, const=t.const)
         if k == 'rec':
             name = t.name
+            if name in ('true', 'false'):
+                return T('num', n=1 if name == 'true' else 0)
             if name in PRIMS:
                 return T('prim', name)
             if name.endswith('::size_type'):
@@ -235,6 +242,12 @@ class Lowering:
                 return T('rec', name.replace('_V2::', ''))
             if name in ('std::nullopt_t', 'std::monostate'):
                 return T('rec', name)
+            mtp = re.match(r'std::chrono::(?:_V2::)?(steady_clock|system_clock)::(time_point|duration)$', name)
+            if mtp:
+                ns = self.resolve(parse_type('std::chrono::nanoseconds'))
+                if mtp.group(2) == 'duration':
+                    return ns
+                return T('tmpl', 'std::chrono::time_point', args=[T('rec', 'std::chrono::' + mtp.group(1)), ns])
             if name in SYSREC:
                 return T('rec', name)
             # user typedef / alias / record / enum
@@ -347,9 +360,14 @@ class Lowering:
             if n in ('std::unordered_map', 'std::map'):
                 kt, vt = t.args
                 name = f'map_{self.short(kt)}_{self.short(vt)}'
-                cap = int(self.spec.options.get('map_cap', '3'))
+                # SINGLE-KEY VIEW of an associative container: the model holds at most THE entry for the key the function
+                # under contract uses (e[0]); e[1] is the storage behind end().  Key values are not compared: every key
+                # expression of one function is taken to denote the same key (stated in evidence; exact for per-key
+                # properties, all other entries are the untouched frame).
                 self.typedef(name, f'typedef struct {name}_ent {{ {self.ctype(kt)} first; {self.ctype(vt)} second; }} {name}_ent;\n'
-                             f'typedef struct {name} {{ {name}_ent e[{cap}]; uint64_t n; }} {name};')
+                             f'typedef struct {name} {{ {name}_ent e[2]; uint64_t n; }} {name};\n'
+                             f'static inline {self.ctype(vt)} *{name}_index({name} *m) '
+                             f'{{ if (!m->n) {{ {name}_ent z = {{0}}; m->e[0] = z; m->n = 1; }} return &m->e[0].second; }}')
                 return name
             if n == 'std::variant':
                 name = 'var_' + '_'.join(self.short(a) for a in t.args)
